@@ -185,6 +185,15 @@ def run(ctx):
         recs, out, rc = run_p(inp_p, "replayP")
         done_p = ctx.process(recs, out, rc, "TestVerifHHReplayP", confirm_p)
         ctx.cov["traces_validated_against_impl"] += done_p.get("behaviours", 0)
+        if not ctx.replay:
+            # the sender against the purge by age: every interleaving up to GenLen steps (BFS over hist), all replayed
+            ga = dict(gp, GenLen=ctx.pick(6, 7))
+            ctx.write_cfg(sd, "GenPA.cfg", "GSpecPA", ga, extra="INVARIANT Emit")
+            behs_a = ctx.tlc_generate(sd, "HHQueueGen", "GenPA.cfg", exhaustive=True, workers=4, timeout=900)
+            recs, out, rc = run_p({"consts": inp_p["consts"], "behaviours": behs_a}, "replayPA")
+            done_a = ctx.process(recs, out, rc, "TestVerifHHReplayP", confirm_p)
+            ctx.cov["sender_vs_purge_behaviours_exhaustive"] = done_a.get("behaviours", 0)
+            ctx.cov["traces_validated_against_impl"] += done_a.get("behaviours", 0)
     if not ctx.replay:
         recs, out, rc = ctx.go_test(PKG, FILES, "^TestVerifHHProcStress$", env={"VERIF_ROUNDS": ctx.pick(20, 200)}, timeout=900, label="procstress")
         ctx.process(recs, out, rc, "TestVerifHHProcStress")
